@@ -813,10 +813,13 @@ namespace ip {
 				assert(m_bytes_in_flight >= acked_bytes);
 				m_bytes_in_flight -= acked_bytes;
 
-				// potentially resend packets
-				while (!m_outgoing_packets.empty()
+				// potentially resend packets. A re-sent segment may be dropped
+				// again at once by a full first hop and come back to the end of
+				// this list; it is retried on a later ACK, not in this loop
+				for (std::size_t to_resend = m_outgoing_packets.size(); to_resend > 0
+					&& !m_outgoing_packets.empty()
 					&& m_bytes_in_flight
-						+ int(m_outgoing_packets.front().buffer.size()) <= m_cwnd)
+						+ int(m_outgoing_packets.front().buffer.size()) <= m_cwnd; --to_resend)
 				{
 					aux::packet pkt = std::move(m_outgoing_packets.front());
 					m_outgoing_packets.erase(m_outgoing_packets.begin());
